@@ -17,8 +17,9 @@ Go code modelled (ledger/blockqueue.go, ledger/tracker.go, ledger/ledger.go):
   by newBlock (their in-memory deltas are `chain.drop dbRound`).
 * `crash`: all volatile state is lost; `recover` is OpenLedger → reloadLedger: blockQueue.start reads lastCommitted from the
   block DB, trackerRegistry.loadFromDisk reads dbRound from the tracker DB, and `replay` re-applies blocks dbRound+1..latest
-  (`openLedger`).  When dbRound > latest the Go loop body never runs and the trackers stay at dbRound: the model does the same
-  (`List.drop` past the end), no error is invented.
+  (`openLedger`).  When the tracker DB is AHEAD of the block DB (AccountsRound > BlockLatest) trackerDBInitialize resets the
+  accounts DB to genesis (AccountsReset + migrations) and everything is replayed from round 0: the model does the same
+  (`recover` empties the tracker store, `openLedger` replays all blocks over genesis).
 
 `confirmed` is a ghost list: the rounds for which waitCommit has returned.
 Core Lean only (no Mathlib): the driver links this file.
@@ -83,13 +84,18 @@ def init (Blk : Type) : Sys Blk :=
   { btx := [], ttx := [], lastCommitted := 0, q := [], work := none, chain := [], dbRound := 0, pending := none,
     phase := .idle, confirmed := [] }
 
+/-- trackerDBInitialize: "resetting accounts DB (on round %v, but blocks DB's latest is %v)" — a tracker DB that is ahead of
+the block DB is wiped (one transaction: AccountsReset + RunMigrations), i.e. it is again the genesis DB at round 0 -/
+def resetIfAhead {Blk : Type} (btx : List (BlockTxn Blk)) (ttx : List (TrackTxn Blk)) : List (TrackTxn Blk) :=
+  if trackerRound ttx ≤ blockRound btx then ttx else []
+
 /-- OpenLedger on the files left by a crash (only the two stores survive; `confirmed` is a ghost) -/
 def recover {Blk : Type} (s : Sys Blk) : Sys Blk :=
-  { btx := s.btx, ttx := s.ttx,
+  { btx := s.btx, ttx := resetIfAhead s.btx s.ttx,
     lastCommitted := blockRound s.btx,          -- blockQueue.start: BlockLatest
     q := [], work := none,
     chain := blocksOf s.btx,                    -- what the trackers can be given again: the block DB
-    dbRound := trackerRound s.ttx,              -- trackerRegistry.loadFromDisk: AccountsRound
+    dbRound := trackerRound (resetIfAhead s.btx s.ttx),   -- trackerRegistry.loadFromDisk: AccountsRound
     pending := none, phase := .idle,
     confirmed := s.confirmed }
 
@@ -178,10 +184,11 @@ structure Opened (Tid σ : Type) where
   trackerRound : Nat
   state : Tid → σ
 
-/-- OpenLedger → reloadLedger: latest = block DB round, trackers loaded at the tracker DB round, then
+/-- OpenLedger → reloadLedger: latest = block DB round, trackerDBInitialize (reset if ahead), trackers loaded at the tracker DB round, then
 `trackerRegistry.replay`: for rnd := dbRound+1 .. latest { newBlock(Block(rnd)) } -/
 def openLedger {Blk Tid σ : Type} (ap : Tid → σ → Blk → σ) (g : Tid → σ)
-    (btx : List (BlockTxn Blk)) (ttx : List (TrackTxn Blk)) : Opened Tid σ :=
+    (btx : List (BlockTxn Blk)) (ttx0 : List (TrackTxn Blk)) : Opened Tid σ :=
+  let ttx := resetIfAhead btx ttx0
   { latest := blockRound btx,
     trackerRound := trackerRound ttx,
     state := fun i => ((blocksOf btx).drop (trackerRound ttx)).foldl (ap i) (trackerData ap g ttx i) }
@@ -189,5 +196,65 @@ def openLedger {Blk Tid σ : Type} (ap : Tid → σ → Blk → σ) (g : Tid →
 /-- the specification: the state obtained by applying the blocks to genesis, one after the other -/
 def replay {Blk Tid σ : Type} (ap : Tid → σ → Blk → σ) (g : Tid → σ) (bs : List Blk) (i : Tid) : σ :=
   bs.foldl (ap i) (g i)
+
+/-! ### Catchpoint bookkeeping (catchpointtracker.go: recoverFromCrash)
+
+Kept apart from `Sys`: the catchpoint tracker writes its bookkeeping in transactions of its own, after commitRound's.
+`gen` = enableGeneratingCatchpointFiles.  A catchpoint label is a function of the catchpoint round's block hash and the
+first-stage record of `round - lookback`, so a label is identified with its round. -/
+structure CatchpointBook where
+  /-- CatchpointStateWritingFirstStageInfo ≠ 0: finishFirstStage of the current dbRound has not recorded its info yet -/
+  writingFirstStage : Bool
+  /-- rounds with a catchpointfirststageinfo row -/
+  firstStage : List Nat
+  /-- rows of unfinishedcatchpoints (catchpoint rounds), in the order SelectUnfinishedCatchpoints returns them -/
+  unfinished : List Nat
+  /-- catchpoint rounds whose label has been written -/
+  labels : List Nat
+  /-- CatchpointStateLastCatchpoint -/
+  last : Option Nat
+  /-- catchpoint data files on disk (by accounts round) -/
+  dataFiles : List Nat
+  /-- catchpoint files on disk / catchpoint rows (by catchpoint round) -/
+  cpFiles : List Nat
+deriving Repr, DecidableEq
+
+def insertNew (r : Nat) (l : List Nat) : List Nat := if r ∈ l then l else r :: l
+
+/-- finishFirstStageAfterCrash: if the marker is set, the half-written data file of dbRound is deleted, finishFirstStage is
+run again (data file regenerated iff `gen`), the first stage info of dbRound is recorded and the marker cleared (one txn) -/
+def finishFirstStageAfterCrash (gen : Bool) (dbRound : Nat) (c : CatchpointBook) : CatchpointBook :=
+  if c.writingFirstStage then
+    { c with writingFirstStage := false, firstStage := insertNew dbRound c.firstStage,
+             dataFiles := if gen then dbRound :: c.dataFiles.filter (· ≠ dbRound) else c.dataFiles.filter (· ≠ dbRound) }
+  else c
+
+/-- finishCatchpoint(round): no first stage info for round-lookback → the unfinished row is deleted; otherwise
+createCatchpoint: the label is written; the catchpoint file is produced, recorded and the unfinished row deleted only when
+files are generated and the data file exists (otherwise createCatchpoint returns early and the row stays) -/
+def finishCatchpoint (gen : Bool) (lookback r : Nat) (c : CatchpointBook) : CatchpointBook :=
+  if (r - lookback) ∈ c.firstStage then
+    let c1 := { c with labels := insertNew r c.labels, last := some r }
+    if gen ∧ (r - lookback) ∈ c.dataFiles then
+      { c1 with cpFiles := insertNew r c1.cpFiles, unfinished := c1.unfinished.filter (· ≠ r) }
+    else c1
+  else { c with unfinished := c.unfinished.filter (· ≠ r) }
+
+/-- finishCatchpointsAfterCrash: for every unfinished record (as selected at the start): delete its catchpoint file, finishCatchpoint -/
+def finishCatchpointsAfterCrash (gen : Bool) (lookback : Nat) (c : CatchpointBook) : CatchpointBook :=
+  c.unfinished.foldl (fun c r => finishCatchpoint gen lookback r { c with cpFiles := c.cpFiles.filter (· ≠ r) }) c
+
+/-- pruneFirstStageRecordsData(dbRound - lookback): first stage rows with round ≤ dbRound - lookback are deleted, and the
+data files of exactly those rows -/
+def pruneFirstStage (dbRound lookback : Nat) (c : CatchpointBook) : CatchpointBook :=
+  if lookback ≤ dbRound then
+    { c with firstStage := c.firstStage.filter (fun r => dbRound - lookback < r),
+             dataFiles := c.dataFiles.filter (fun r => ¬ (r ∈ c.firstStage ∧ r ≤ dbRound - lookback)) }
+  else c
+
+/-- catchpointTracker.recoverFromCrash (lookback = the stored CatchpointLookback; 0 = never stored: only the first step) -/
+def recoverFromCrash (gen : Bool) (dbRound lookback : Nat) (c : CatchpointBook) : CatchpointBook :=
+  let c1 := finishFirstStageAfterCrash gen dbRound c
+  if lookback = 0 then c1 else pruneFirstStage dbRound lookback (finishCatchpointsAfterCrash gen lookback c1)
 
 end AlgoVerif.Model.Durable
